@@ -13,13 +13,16 @@ package c13
 import (
 	"encoding/json"
 	"fmt"
+	"os"
 	"strings"
 	"sync"
 	"testing"
 	"testing/synctest"
 	"time"
 
+	"github.com/ozontech/file.d/fd"
 	"github.com/ozontech/file.d/pipeline"
+	_ "github.com/ozontech/file.d/plugin/output/stdout"
 	"github.com/ozontech/file.d/zzverif/fdkit"
 	"github.com/ozontech/file.d/zzverif/vkit"
 )
@@ -31,19 +34,33 @@ func (*replayInput) Stop()                                                 {}
 func (*replayInput) Commit(*pipeline.Event)                                {}
 func (*replayInput) PassEvent(*pipeline.Event) bool                        { return true }
 
-// replayOutput is a synchronous output (like devnull / stdout): it encodes the
-// event the way every output does and commits it.
+// replayOutput judges every event the way a batching output would see it
+// (encode, parents of spawned children skipped) and then hands it to the real
+// `stdout` output plugin (the output of the README's quick start), which encodes
+// and commits it. A panic of stdout.Out is recovered here (it runs on the
+// processor goroutine and would take the process down).
 type replayOutput struct {
-	ctl pipeline.OutputPluginController
-	mu  sync.Mutex
-	n   int
-	bad []string
+	real     pipeline.OutputPlugin
+	ctl      pipeline.OutputPluginController
+	mu       sync.Mutex
+	n        int
+	bad      []string
+	outPanic string
 }
 
 func (o *replayOutput) Start(_ pipeline.AnyConfig, p *pipeline.OutputPluginParams) {
 	o.ctl = p.Controller
+	if info, err := fd.DefaultPluginRegistry.Get(pipeline.PluginKindOutput, "stdout"); err == nil {
+		plug, cfg := info.Factory()
+		o.real = plug.(pipeline.OutputPlugin)
+		o.real.Start(cfg, p)
+	}
 }
-func (o *replayOutput) Stop() {}
+func (o *replayOutput) Stop() {
+	if o.real != nil {
+		o.real.Stop()
+	}
+}
 func (o *replayOutput) Out(e *pipeline.Event) {
 	if !e.IsChildParentKind() { // Batch.ForEach skips the parents of spawned children
 		var enc string
@@ -63,7 +80,18 @@ func (o *replayOutput) Out(e *pipeline.Event) {
 		}
 		o.mu.Unlock()
 	}
-	o.ctl.Commit(e)
+	if o.real == nil {
+		o.ctl.Commit(e)
+		return
+	}
+	if rec, stack := fdkit.CatchPanic(func() { o.real.Out(e) }); rec != nil {
+		o.mu.Lock()
+		if o.outPanic == "" {
+			o.outPanic = fmt.Sprintf("%v (event kind parent-of-children=%v)\n%s", rec, e.IsChildParentKind(), shortStack(stack))
+		}
+		o.mu.Unlock()
+		o.ctl.Commit(e) // stdout.Out commits after printing
+	}
 }
 
 // lastExec: what the direct route learned about the case (set by exec; cases run one after the other).
@@ -86,6 +114,12 @@ func runPipe(c Case) *vkit.Outcome {
 	var leftover any
 	func() {
 		defer func() { leftover = recover() }()
+		// the stdout output prints to os.Stdout
+		if devnull, derr := os.OpenFile(os.DevNull, os.O_WRONLY, 0); derr == nil {
+			saved := os.Stdout
+			os.Stdout = devnull
+			defer func() { os.Stdout = saved; _ = devnull.Close() }()
+		}
 		vkit.Bubble(func() {
 			st := pipelineSettings(c.Settings)
 			st.Capacity = 16
@@ -146,6 +180,9 @@ func runPipe(c Case) *vkit.Outcome {
 	if out.n > 0 {
 		o.Class("pipeline-replay-with-output:" + c.Plugin)
 	}
+	if out.outPanic != "" {
+		o.Failf(P, "stdout-output-panics:"+c.Plugin+":"+panicKind(out.outPanic), "replayed through a real pipeline whose output is the real stdout plugin: stdout.Out panicked on the processor goroutine (the collector goes down): %s\nconfig %s settings %+v events %s", clip(out.outPanic, 1200), c.Config, c.Settings, eventsOf(c))
+	}
 	if len(out.bad) > 0 {
 		o.Failf(P, "pipeline-output-event-not-json:"+c.Plugin, "replayed through a real pipeline, the output received an event that does not encode to valid JSON: %q\nconfig %s settings %+v", clip(out.bad[0], 600), c.Config, c.Settings)
 	}
@@ -161,6 +198,14 @@ func runPipe(c Case) *vkit.Outcome {
 		vkit.Note(P, fmt.Sprintf("pipeline replay of %s: the bubble did not end cleanly: %v", c.Plugin, clip(fmt.Sprint(leftover), 200)))
 	}
 	return o
+}
+
+func eventsOf(c Case) string {
+	var sb strings.Builder
+	for i, e := range c.Events {
+		fmt.Fprintf(&sb, "\n #%d %q", i, clip(string(e.bytes()), 300))
+	}
+	return sb.String()
 }
 
 var propPipe = vkit.NewProp([]string{P}, "c13pipeline", gen, runPipe)
